@@ -12,7 +12,7 @@ from ..harness import digest
 
 MANIFEST = {
     'text': 'Held on every holospectrum computed: emd.spectra.holospectrum is compared with a triple-loop reference for all three squash_time settings and both modes on every frequency configuration with T*M*K <= 2 (and the single-time shapes with K=3; thorough adds the 3-sample shapes over a reduced pool) drawn from edge-hitting pools for independent carrier and AM bin sets of 1..3 bins, plus seeded random arrays (T<=12, M<=3, K<=3, independent linear/log bin sets of 1..5 bins) with out-of-range and edge-valued frequencies; shapes must be [T x AM x carrier] / [AM x carrier] and values agree to 1e-12 of the total. Exhaustive at the stated bound, sampling beyond. Schedules: the same deterministic calls made from 4-5 threads of one interpreter at once (thread switch every 1-10 microseconds) must reproduce the results obtained alone. Faults: a call abandoned at an arbitrary statement (sys.monitoring failpoint) must leave nothing behind for the next valid call. A quarter of the shards run in a session that turns Deprecation/Future/UserWarnings into errors.',
-    'note': 'Trusted: numpy/scipy.sparse. NaN frequencies are outside the quantifier.',
+    'note': 'Trusted: numpy/scipy.sparse. A NaN frequency belongs to no bin; a sample out of range contributes nothing whatever its amplitude (NaN / inf included); big-endian amplitude arrays are not generated (scipy.sparse refuses them).',
     'technique': 'brute-force reference histogram vs the real holospectrum, exhaustive edge-hitting enumeration + seeded random',
 }
 LOGGER_ON_ODD_SHARDS = True
